@@ -54,6 +54,22 @@ CHECKS = {
    technique="exhaustive enumeration of import DAGs up to isomorphism x content variants, differential trace vs go1.24.0 on the order the property fixes",
    text="Every import DAG on <=3 library packages (thorough: all 31 on 4) with main importing the roots or everything, crossed with content variants (dependencies against file order, several init functions per file, blank variables and imports, cross-package initialisers, an initialiser using the patched sync/atomic): the trace must contain every initialiser/init exactly once, each package's own sequence must equal the reference toolchain's, each package must start only after every package it uses has finished, and main.main comes last.",
    note="The relative order of independent packages is not part of the property and is not compared (llgo follows import order, Go >= 1.21 sorts by path). Only build mode exe is executed.", ref="§4 C12"),
+ "C01": dict(cat="exploration", engine="tc",
+   technique="bounded-exhaustive program families over the core language, differential execution vs go1.24.0 on two back ends and two package layouts",
+   text="Three enumerated program families: every outer x inner pair of 20 control constructs with 5 leaf behaviours, traced for three inputs; 14 callee kinds x 6 call forms, compiled in one package and split over two; 15 value types through copy/by-value/tuple assignment with side-effecting operands/aliasing/boxing/zero values/equality. Output and termination of every generated function must equal the reference toolchain's on the LLVM-14 -O0 back end and on the same IR optimised by clang 22 -O2 (thorough: also without GC).",
+   note="Small-scope hypothesis: nesting depth 2. O2 means clang 22 on llgo's -O0 IR; llgo's own RunPasses plumbing is not exercised (LLVM 14's pipeline crashes on this IR).", ref="§4 C01"),
+ "C09": dict(cat="exploration", engine="tc",
+   technique="bounded-exhaustive enumeration of C struct shapes x parameter positions, checksummed on both sides of the real Go/C boundary",
+   text="Every struct of 1-3 fields (thorough 4) over {int8,int16,int32,int64,float32,float64,pointer}, larger homogeneous/alternating shapes up to 96 bytes and 13 nested/array shapes, in 9 positions (sole argument, after 6 integer arguments, after 8 doubles, result, argument+result, value loaded through a pointer whose pointee then changes, C->Go callback parameter and result with a func literal and a named func): the receiver's checksum of the field values must equal the sender's. The C side is compiled by the host C compiler through llgo's LLGoFiles path.",
+   note="amd64 only. Struct splitting after register exhaustion and one invalid-IR shape are recorded known findings (known/C09_*.txt).", ref="§4 C09"),
+ "C13": dict(cat="model_checking", engine="enum",
+   technique="explicit-state search over (edit one input, rebuild) histories of a generated multi-package module with a private cache per history; model = version vector of the inputs",
+   text="World: main -> a -> b with an embedded data file, a build-tag-gated file pair and an LLGoFiles C file with a header. Every history of the listed shapes (thorough: all of length <=2 over 12 events and all of length 3 over 6) is replayed on a fresh world whose cache starts as a hard-linked copy of a warmed template; after each step the program built through the cache must print exactly the versions of its seven inputs, which is what a clean build prints. File times are set explicitly (strictly increasing), so nothing depends on the wall clock. Two clean builds of the same sources must emit identical IR for every package.",
+   note="-X overrides and LLGO_* variables are not enumerated. Missing fingerprint inputs (embedded files, LLGoFiles sources, headers) are recorded known findings.", ref="§4 C13"),
+ "C19": dict(cat="exploration", engine="tc",
+   technique="enumerated conversion/call/lookup cases executed by a llgo-compiled program against CPython 3.11 running the same cases",
+   text="Integers of every Go type at their boundary values, special floats, strings and nested lists/tuples are converted through py.List/py.Tuple and the explicit constructors, rendered by Python itself and read back; positional calls of arity 0-6 and all orders of three distinguishable arguments go through two test modules; attributes and modules are looked up by name; a Python call is made from a package init function; the import log must list each module once. The expected text is produced by /usr/bin/python3.11 executing the same calls.",
+   note="One program, linked against libpython3.11; import order between different modules is not compared.", ref="§4 C19"),
 }
 ALL = ["C%02d" % i for i in range(1, 21)]
 m = {
